@@ -392,16 +392,16 @@ Definition rf_color_requests (req : list N) (c : option color) : option (list N)
 (* cansi::v3::CategorisedSlice seen through the pair (SGR, text) of rf_categorise
    (its `start` / `end` fields are not read by anstyle-roff) *)
 Definition rf_cat : Set := (rf_sgr * list N)%type.
-Definition rf_cat_text (c : rf_cat) : list N := snd c.
-Definition rf_cat_fg (c : rf_cat) : option N := cs_fg (fst c).
-Definition rf_cat_bg (c : rf_cat) : option N := cs_bg (fst c).
-Definition rf_cat_intensity (c : rf_cat) : option N := cs_intensity (fst c).
-Definition rf_cat_italic (c : rf_cat) : option bool := cs_italic (fst c).
-Definition rf_cat_underline (c : rf_cat) : option bool := cs_underline (fst c).
-Definition rf_cat_blink (c : rf_cat) : option bool := cs_blink (fst c).
-Definition rf_cat_reversed (c : rf_cat) : option bool := cs_reversed (fst c).
-Definition rf_cat_hidden (c : rf_cat) : option bool := cs_hidden (fst c).
-Definition rf_cat_strikethrough (c : rf_cat) : option bool := cs_strikethrough (fst c).
+Definition rf_cslice_text (c : rf_cat) : list N := snd c.
+Definition rf_cslice_fg (c : rf_cat) : option N := cs_fg (fst c).
+Definition rf_cslice_bg (c : rf_cat) : option N := cs_bg (fst c).
+Definition rf_cslice_intensity (c : rf_cat) : option N := cs_intensity (fst c).
+Definition rf_cslice_italic (c : rf_cat) : option bool := cs_italic (fst c).
+Definition rf_cslice_underline (c : rf_cat) : option bool := cs_underline (fst c).
+Definition rf_cslice_blink (c : rf_cat) : option bool := cs_blink (fst c).
+Definition rf_cslice_reversed (c : rf_cat) : option bool := cs_reversed (fst c).
+Definition rf_cslice_hidden (c : rf_cat) : option bool := cs_hidden (fst c).
+Definition rf_cslice_strikethrough (c : rf_cat) : option bool := cs_strikethrough (fst c).
 
 (* anstyle::Style::{new, fg_color, bg_color, effects} on the part of Style this crate uses *)
 Definition rf_style_new : rf_style := mkRfStyle None None e_new.
@@ -414,10 +414,10 @@ Record rf_styled : Set := mkRfStyled { rfs_text : list N; rfs_style : rf_style }
 
 (* roff::Roff = the lines pushed so far; Roff::new, Roff::control (returns the document itself:
    `&mut Self`), Roff::text; roff::{bold, italic, roman} are the constructors of rf_inline *)
-Definition rf_doc_new : list rf_line := [].
-Definition rf_doc_control (d : list rf_line) (name : list N) (args : list (list N)) : list rf_line :=
+Definition rf_roff_new : list rf_line := [].
+Definition rf_roff_control (d : list rf_line) (name : list N) (args : list (list N)) : list rf_line :=
   d ++ [RfControl name args].
-Definition rf_doc_text (d : list rf_line) (inlines : list rf_inline) : list rf_line := d ++ [RfText inlines].
+Definition rf_roff_text (d : list rf_line) (inlines : list rf_inline) : list rf_line := d ++ [RfText inlines].
 
 (* Iterator::map / Option::map with a function whose translation is option-valued (None = panic) *)
 Fixpoint rf_map_m {A B : Type} (f : A -> option B) (l : list A) : option (list B) :=
